@@ -1190,17 +1190,21 @@ example : firstOf ([[Val.str ['3']]].map single) Val.none = .str ['3'] := (C06_c
 example : firstOf ([[Val.str ['3'], .str ['4']]].map single) Val.none = .list .n0 [.str ['3'], .str ['4']] :=
   (C06_chained_first_cases _ _ (.str ['3']) _).2.2.1 rfl (by decide)
 
-/-- observation (outside `InnerRecs`, hence outside the theorems; the property speaks of LISTS OF RECORDS): an outer
-record whose `t` is a scalar makes the inner predicate step raise `IndexError` ("must be n0dict"), which leaves the
-fan-out loop: the whole lookup is a miss although the second order has a matching record -/
+/-- (was an observation, repaired by fix C06-h; outside `InnerRecs`, hence outside the theorems - the property speaks of LISTS OF
+RECORDS): an outer record whose `t` is a scalar made the inner predicate step raise `IndexError` ("must be n0dict"), which left
+the fan-out loop, so that the whole lookup was a miss although the second order has a matching record.  A single value now simply
+does not satisfy the condition: that parent contributes nothing, the other parents are selected. -/
 def ordersScalarInner : Val :=
   .dict .n0 [(['o'], .list .plain [
     .dict .plain [(['i'], .str ['1']), (['t'], .str ['x'])],
     .dict .plain [(['i'], .str ['1']), (['t'], .list .plain [.dict .plain [(['s'], .str ['B']), (['q'], .str ['4'])]])]])]
-example : (XPath.get 80 ordersScalarInner ['o', '[', 'i', '=', '1', ']', '/', 't', '[', 's', '=', 'B', ']', '/', 'q'] (.str ['D'])).2
-      = .ok (.str ['D'])
+theorem C06_scalar_inner_example :
+    (XPath.get 80 ordersScalarInner ['o', '[', 'i', '=', '1', ']', '/', 't', '[', 's', '=', 'B', ']', '/', 'q'] (.str ['D'])).2
+      = .ok (.list .n0 [.list .n0 [.str ['4']]])
     ∧ (XPath.getItem 80 ordersScalarInner ['o', '[', 'i', '=', '1', ']', '/', 't', '[', 's', '=', 'B', ']', '/', 'q']).2
-      = .error .IndexError := by
+      = .ok (.list .n0 [.list .n0 [.str ['4']]])
+    ∧ (XPath.first 80 ordersScalarInner ['o', '[', 'i', '=', '1', ']', '/', 't', '[', 's', '=', 'B', ']', '/', 'q'] (.str ['D'])).2
+      = .ok (.str ['4']) := by
   decide +kernel
 
 /-! ## n0list-rooted record lists (fix C06-f)
